@@ -85,11 +85,35 @@ def gen_c02_sites():
                     r'immediateRewards_\s*/=\s*static_cast<double>\(O\)\s*;',
                     r'if\s*\(\s*checkDifferentSmall\s*\(\s*model_\.getObservationProbability\(s,a,o\)\s*,\s*0\.0\s*\)\s*\)\s*\{\s*possibleObservations_\[a\]\[o\]\s*=\s*true\s*;'], relp)
 
+    reli = 'include/AIToolbox/POMDP/Algorithms/IncrementalPruning.hpp'
+    ip = E.strip_comments(E.read(reli))
+    il = _order(ip, [r'projs\[a\]\[o\]\.erase\s*\(\s*prune\s*\(\s*begin\s*,\s*end\s*,\s*unwrap\s*\)\s*,\s*end\s*\)\s*;',
+                     r'bool\s+oddOld\s*=\s*O\s*%\s*2\s*;',
+                     r'int\s+i\s*,\s*front\s*=\s*0\s*,\s*back\s*=\s*O\s*-\s*oddOld\s*,\s*stepsize\s*=\s*2\s*,\s*diff\s*=\s*1\s*,\s*elements\s*=\s*O\s*;',
+                     r'while\s*\(\s*elements\s*>\s*1\s*\)',
+                     r'for\s*\(\s*i\s*=\s*front\s*;\s*i\s*!=\s*back\s*;\s*i\s*\+=\s*stepsize\s*\)',
+                     r'projs\[a\]\[i\]\s*=\s*crossSum\s*\(\s*projs\[a\]\[i\]\s*,\s*projs\[a\]\[i\s*\+\s*diff\]\s*,\s*a\s*,\s*stepsize\s*>\s*0\s*\)\s*;',
+                     r'projs\[a\]\[i\]\.erase\s*\(\s*prune\s*\(',
+                     r'--elements\s*;',
+                     r'const\s+bool\s+oddNew\s*=\s*elements\s*%\s*2\s*;',
+                     r'const\s+int\s+tmp\s*=\s*back\s*;',
+                     r'back\s*=\s*front\s*-\s*\(\s*oddNew\s*\?\s*0\s*:\s*stepsize\s*\)\s*;',
+                     r'front\s*=\s*tmp\s*-\s*\(\s*oddOld\s*\?\s*0\s*:\s*stepsize\s*\)\s*;',
+                     r'stepsize\s*\*=\s*-2\s*;', r'diff\s*\*=\s*-2\s*;', r'oddOld\s*=\s*oddNew\s*;',
+                     r'if\s*\(\s*front\s*!=\s*0\s*\)\s*projs\[a\]\[0\]\s*=\s*std::move\s*\(\s*projs\[a\]\[front\]\s*\)\s*;',
+                     r'w\.insert\s*\(\s*std::end\(w\)',
+                     r'w\.erase\s*\(\s*prune\s*\(\s*begin\s*,\s*end\s*,\s*unwrap\s*\)\s*,\s*end\s*\)\s*;'], reli)
+    relc = 'src/POMDP/Algorithms/IncrementalPruning.cpp'
+    cs = E.strip_comments(E.read(relc))
+    _order(cs, [r'if\s*\(\s*!\(l1\.size\(\)\s*&&\s*l2\.size\(\)\)\s*\)\s*return\s+c\s*;', r'for\s*\(\s*const\s+auto\s*&\s*v1\s*:\s*l1\s*\)',
+                r'for\s*\(\s*const\s+auto\s*&\s*v2\s*:\s*l2\s*\)', r'auto\s+v\s*=\s*v1\.values\s*\+\s*v2\.values\s*;'], relc)
+
     out = ['/- GENERATED by tools/extract_c02.py from the library source — do not edit. -/', 'namespace AITB.Gen.C02', '',
            f'/-- {rel}:{ub_line} -/', f'def rtbssGeometricBound : Bool := {"true" if geometric else "false"}',
            f'/-- {rel}:{sim_line} -/', f'def rtbssCompareInsidePrune : Bool := {"true" if inside else "false"}',
            f'/-- {rel}:{sim_line} -/', 'def rtbssSites : List String := ["h0", "iota", "negInf", "forA", "rew", "uBound", "prune", "forO", "update", "diffSmall", "recurse", "cmp", "setMax", "topOnly", "ret"]',
            f'/-- {relp}:{pl[0]} -/', 'def projecterSites : List String := ["impossible", "rewardOnly", "TxVO", "timesGammaPlusR", "overO", "possibleSmall"]',
+           f'/-- {reli}:{il[1]} -/', 'def ipScheduleSites : List String := ["pruneEach", "oddOld", "init", "while", "for", "merge", "pruneMerged", "dec", "oddNew", "tmp", "back", "front", "step", "diff", "odd", "moveFront", "union", "pruneUnion"]',
            '', 'end AITB.Gen.C02', '']
     E.write_if_changed('C02Sites', '\n'.join(out))
 
